@@ -362,7 +362,13 @@ where
 {
     let os = env::var("CNB_TARGET_OS").map_err(Error::CannotDetermineTargetOs)?;
     let arch = env::var("CNB_TARGET_ARCH").map_err(Error::CannotDetermineTargetArch)?;
-    let arch_variant = env::var("CNB_TARGET_ARCH_VARIANT").ok();
+    // The variant is optional, but a value that isn't valid Unicode must not be mistaken for a
+    // missing one.
+    let arch_variant = match env::var("CNB_TARGET_ARCH_VARIANT") {
+        Ok(arch_variant) => Some(arch_variant),
+        Err(env::VarError::NotPresent) => None,
+        Err(error) => return Err(Error::CannotDetermineTargetArchVariant(error)),
+    };
     // Whilst the Buildpack API spec says these env vars are optional they will always be set in
     // practice, so we treat them as mandatory to improve buildpack author UX. See:
     // https://github.com/heroku/libcnb.rs/issues/820
